@@ -62,8 +62,8 @@ def extra(ver):
     if prop == "C19":
         core_only_build(ver)
         c19_coldstart(ver)
-    if prop == "C13" and tier == "thorough":
-        c13_race_detectors(ver)
+    if prop == "C13":
+        c13_race_detectors(ver, full=(tier == "thorough"))
 
 
 FUZZ_PROPS = ["C01", "C02", "C03", "C04", "C05", "C06", "C07", "C08", "C09", "C10", "C11", "C14", "C15", "C16", "C17", "C19"]
@@ -302,9 +302,11 @@ def c19_coldstart(ver):
 
 # ---------------------------------------------------------------- C13 race detectors (thorough)
 
-def c13_race_detectors(ver):
-    # TSan
+def c13_race_detectors(ver, full=True):
+    # TSan (thorough only: needs a -Zbuild-std build)
     try:
+        if not full:
+            raise StopIteration
         d = build("tsan")
         binp = os.path.join(d, "coldstart")
         env = dict(os.environ, TSAN_OPTIONS="halt_on_error=1:exitcode=66")
@@ -320,19 +322,21 @@ def c13_race_detectors(ver):
                                                replay=["tsan-coldstart"], replay_cmd=[binp, "16", str(ver.seed * 31 + i)]))
         ver.extra["tsan_cold_start"] = dict(processes=runs, reports=reports)
         ver.evaluations += runs
+    except StopIteration:
+        pass
     except Inconclusive as e:
         ver.inconclusive.append("TSan build failed: " + str(e)[-800:])
     # Miri data-race detector over many schedules
     v = variant("miri-rt")
-    env = dict(os.environ, RUSTFLAGS=v["rustflags"], MIRIFLAGS=v["miriflags"] + " -Zmiri-many-seeds=0..32", CARGO_NET_OFFLINE="true", VERIF_REPO=vd.REPO)
+    env = dict(os.environ, RUSTFLAGS=v["rustflags"], MIRIFLAGS=v["miriflags"] + " -Zmiri-many-seeds=0..%d" % (32 if full else 8), CARGO_NET_OFFLINE="true", VERIF_REPO=vd.REPO)
     cmd = ["cargo", "+nightly", "miri", "run", "--quiet", "--manifest-path", os.path.join(manifest_dir(), "Cargo.toml"), "--target-dir", target_dir(v),
            "--bin", "coldstart", "--", "4", str(ver.seed)]
     r = subprocess.run(cmd, env=env, stdout=subprocess.PIPE, stderr=subprocess.STDOUT, text=True, errors="replace")
     ub = "Undefined Behavior" in r.stdout or "Data race" in r.stdout
-    ver.extra["miri_cold_start"] = dict(schedules=32, threads=4, reported=ub, rc=r.returncode)
+    ver.extra["miri_cold_start"] = dict(schedules=32 if full else 8, threads=4, reported=ub, rc=r.returncode)
     if ub:
         ver.violations.append(dict(property="C13", rule="data_race_reported_by_miri", variant="miri-rt", signature=None,
                                    detail=r.stdout[-1500:], replay=["miri-coldstart"], replay_cmd=cmd))
     elif r.returncode != 0:
         ver.inconclusive.append("miri cold start run failed: " + r.stdout[-800:])
-    ver.evaluations += 32
+    ver.evaluations += 32 if full else 8
